@@ -28,6 +28,7 @@ func init() {
 			ruleC02R8(r)
 			ruleResumeRestoresConnected(r, "R9", "Upstream")
 			ruleNoSwallowedErrors(r, "R10", 30, false, "/iscp")
+			r.borrow("C07", func() { ruleC07R1(r) }) // the shared store is keyed by stream id (anchor iscp/storage.go)
 			ruleC01R8(r)
 		},
 	})
@@ -309,6 +310,26 @@ func ruleC02R5b(r *Run) {
 			}
 		}
 		r.Check(name+" retransmits each entry", inLoopSend, posOf(p, ls), name, fmt.Sprintf("%d transmission call(s), inside the range loop: %v", len(sends), inLoopSend))
+		// …and no iteration is skipped: from the loop body the next iteration is not reachable without a transmission
+		allInstrs(fn, func(ins ssa.Instruction) {
+			nx, isNext := ins.(*ssa.Next)
+			if !isNext || !hasLeafPrefix(p.Leaves(nx.Iter.(*ssa.Range).X, provOpts{}), "call:/iscp.sentStorage.List") {
+				return
+			}
+			var body *ssa.BasicBlock
+			if ifs, isIf := nx.Block().Instrs[len(nx.Block().Instrs)-1].(*ssa.If); isIf {
+				body = ifs.Block().Succs[0]
+			}
+			if body == nil {
+				return
+			}
+			isSend := map[ssa.Instruction]bool{}
+			for _, s := range sends {
+				isSend[s] = true
+			}
+			w := reachesWithoutFromBlock(body, func(x ssa.Instruction) bool { return x == ssa.Instruction(nx) }, func(x ssa.Instruction) bool { return isSend[x] })
+			r.Check(name+" skips no stored chunk", w == nil, posOf(p, nx), name, "from the body of the loop over the stored chunks the next iteration is reachable without starting a transmission: that chunk stays unacknowledged in the store and never reaches the broker")
+		})
 		// the retransmit goroutine is created only on the reliable branch
 		reliable, _ := p.enumConst("/message", "QoSReliable")
 		parent := fn.Parent()
